@@ -20,10 +20,13 @@ from yaql.language import runner as yrunner
 from yaql.language import utils as yutils
 
 RULE = ('cases are (assignment of (statement, document) pairs from a pool of '
-        '60 statements touching every library module to 2-4 threads, '
+        '63 statements touching every library module (three of them deeply '
+        'nested) to 2-4 threads, '
         'schedule); systematic: pairs of single statements, all schedules '
         'with <=2 (thorough <=3) preemptions by stateless DFS; random: '
-        'Hypothesis-drawn schedules; free-running threads at 1 us switch '
+        'Hypothesis-drawn schedules; nested overlaps (A a points, B b '
+        'points, A to its end, B) for every statement against itself and a '
+        'partner; free-running threads at 1 us switch '
         'interval incl. yaql.eval; cold start: fresh library context '
         '(yaql.create_context() or assembled by hand without finalizer) '
         'and freshly parsed statement, thread A suspended at a line event '
@@ -82,6 +85,10 @@ POOL = [
     "characters(digits => true).len()", 'int("12") + float("1.5")',
     '$.items.max() - $.items.min()', 'isString($.s) and isList($.items)',
     '$src.take(3).select($ + 1)', '$src.where($ mod 2 = 0).take(2).sum()',
+    # deep expressions (whatever the outcome alone is - a value or a
+    # recursion error - it must be the same with company)
+    ' + '.join(['$.a'] + ['1'] * 219), ' + '.join(['1'] * 120),
+    '[' * 60 + '$.b' + ']' * 60,
 ]
 DOCS = [
     {'a': 3, 'b': 4, 's': 'ab a1 b2', 'items': [3, 1, 2, 2],
@@ -599,6 +606,25 @@ def _sys_shard(run, pairs, max_runs, max_pre):
     _systematic(run, pairs, max_runs, max_pre)
 
 
+OVERLAP_A = [1, 2, 3, 5, 8, 13, 21, 40, 80]
+OVERLAP_B = [1, 2, 3, 5, 9]
+
+
+def _overlap_shard(run, pairs):
+    """nested overlaps: A runs a scheduling points, B runs b points, A runs
+    to its end, then B - the shape that exposes state saved at the start of
+    an evaluation and restored at its end (process-wide settings, shared
+    scratch objects) when another evaluation is in between"""
+    install_points()
+    for x, y in pairs:
+        for a in OVERLAP_A:
+            for b in OVERLAP_B:
+                check_scheduled(run, {
+                    'kind': 'scheduled',
+                    'threads': [[list(x)], [list(y)]],
+                    'trace': [0] * a + [1] * b + [0] * 4000})
+
+
 def _hyp_shard(run, n, shard):
     run.hyp('random-schedules', cases(), lambda c: check_choices(run, c), n,
             shard=shard)
@@ -621,6 +647,12 @@ def run(run):
     chunks = [pairs[i::16] for i in range(16)]
     run.shards(_sys_shard, [(c, 3000 if full else 400, 3 if full else 2)
                             for c in chunks if c], watchdog=600)
+    ov = [((i, (i + run.seed) % len(DOCS)), (i, (i + 1) % len(DOCS)))
+          for i in range(n)]
+    ov += [((i, 0), ((i * 5 + 1 + run.seed) % n, 1))
+           for i in range(0, n, 1 if full else 3)]
+    run.shards(_overlap_shard, [(ov[i::16],) for i in range(16)],
+               watchdog=900)
     k = 8
     run.shards(_hyp_shard, [((8000 if full else 400) // k, i)
                             for i in range(k)], watchdog=600)
